@@ -299,6 +299,59 @@ theorem derived_hash_separates_passwords (H : List Nat → List Nat) (hH : Funct
     (h : standardHFinal H salt (utf16le a) = standardHFinal H salt (utf16le b)) : a = b :=
   utf16le_injective a b (standardHFinal_injective H hH salt _ _ h)
 
+/-- *gates access* (agile counterpart of `derived_hash_separates_passwords`): under collision freeness
+of the hash, for a fixed salt, block key and spin count, two different passwords give different
+`H(Hₙ ‖ blockKey)` in `convertPasswdToKey`, for every number of rounds; and when the digest has exactly
+`keyBits/8` bytes (no cut, no extension) the derived agile keys themselves differ. -/
+theorem agile_hash_separates_passwords (H : List Nat → List Nat) (hH : Function.Injective H)
+    (salt blockKey : List Nat) (spinCount keyBits : Nat) (a b : List Char) :
+    (H (spin H spinCount 0 (H (salt ++ utf16le a)) ++ blockKey) =
+       H (spin H spinCount 0 (H (salt ++ utf16le b)) ++ blockKey) → a = b) ∧
+    ((H (spin H spinCount 0 (H (salt ++ utf16le a)) ++ blockKey)).length = keyBits / 8 →
+     (H (spin H spinCount 0 (H (salt ++ utf16le b)) ++ blockKey)).length = keyBits / 8 →
+       agileKey H salt (utf16le a) blockKey spinCount keyBits =
+         agileKey H salt (utf16le b) blockKey spinCount keyBits → a = b) := by
+  have key : H (spin H spinCount 0 (H (salt ++ utf16le a)) ++ blockKey) =
+       H (spin H spinCount 0 (H (salt ++ utf16le b)) ++ blockKey) → a = b := by
+    intro h
+    have h1 := List.append_cancel_right (hH h)
+    have h2 := hH (spin_injective H hH _ _ _ _ h1)
+    exact utf16le_injective a b (List.append_cancel_left h2)
+  refine ⟨key, ?_⟩
+  intro hla hlb h
+  apply key
+  simpa [agileKey, hla, hlb] using h
+
+/-- *key derivation … AES-128* (the cut of X1‖X2): whenever `standardConvertPasswdToKey` returns a key it
+has exactly `keyBits/8` bytes; for a hash with 20-byte digests (SHA-1) it returns one iff
+`keyBits/8 ≤ 40`, in particular 16 / 24 / 32 bytes for AES-128 / 192 / 256 — the lengths
+`aes.NewCipher` accepts — and ErrWorkbookFileFormat (`none`) beyond two digests. -/
+theorem standard_key_length (H : List Nat → List Nat) (salt pw16 : List Nat) (keyBits : Nat) :
+    (∀ k, standardKey H salt pw16 keyBits = some k → k.length = keyBits / 8) ∧
+    ((∀ x, (H x).length = 20) →
+       ((standardKey H salt pw16 keyBits).isSome = true ↔ keyBits / 8 ≤ 40)) := by
+  constructor
+  · intro k h
+    unfold standardKey at h
+    dsimp only at h
+    split at h
+    · cases h
+    · cases h
+      rw [List.length_take]; omega
+  · intro hlen
+    unfold standardKey
+    dsimp only
+    rw [List.length_append, hlen, hlen]
+    split <;> simp <;> omega
+
+/-- non-vacuity of `standard_key_length` (a hash with 20-byte digests exists; AES-256 gets 32 bytes) and of
+the length hypotheses of `agile_hash_separates_passwords` (`H = id` is injective; digests of 32 bytes). -/
+example : (∀ x, ((fun _ => List.replicate 20 0 : List Nat → List Nat) x).length = 20) ∧
+    (standardKey (fun _ => List.replicate 20 0) [] [] 256).map List.length = some 32 ∧
+    Function.Injective (id : List Nat → List Nat) ∧
+    ((id : List Nat → List Nat) (spin id 0 0 (id ([] ++ utf16le ['a'])) ++ List.replicate 30 0)).length = 256 / 8 := by
+  refine ⟨fun _ => by simp, by decide, fun _ _ h => h, by decide⟩
+
 /-- *opening with a wrong or missing password returns an error, never content* (control flow of
 `OpenReader`): a `*File` is returned only if the input was not a compound file or `Decrypt`
 succeeded, **and** the resulting bytes are a zip, **and** the package was read; a failing `Decrypt`
